@@ -216,7 +216,14 @@ func GenCase(r *rand.Rand, tame bool) (*Cluster, []NetPol) {
 func Flows(c *Cluster, ps []NetPol) []Flow {
 	addrs := []uint32{}
 	seen := map[uint32]bool{}
+	crowd := 0
 	for _, p := range c.Pods {
+		if _, ok := p.Labels[CrowdLabel]; ok {
+			// the members of a crowd are alike: two of them stand for all
+			if crowd++; crowd > 2 {
+				continue
+			}
+		}
 		if p.HasIP && !seen[p.IP] {
 			seen[p.IP] = true
 			addrs = append(addrs, p.IP)
@@ -293,4 +300,88 @@ func Flows(c *Cluster, ps []NetPol) []Flow {
 		}
 	}
 	return out
+}
+
+// CrowdLabel marks the pods of a "crowd": 3..15 pods matched by one selector that several rules use as their FIRST
+// peer, each rule followed by different further peers (rules of one policy or of several policies, ingress or egress).
+// What the rules share must stay shared VALUES: every rule's set holds the crowd plus its own further peers.
+const CrowdLabel = "grp"
+
+// GenCrowdCase: a cluster with a crowd and 2-3 rules sharing their first podSelector peer.
+func GenCrowdCase(r *rand.Rand, tame bool) (*Cluster, []NetPol) {
+	c, ps := GenCase(r, tame)
+	polNS := pick(r, c.NSs).Name
+	nsIdx := func(name string) int {
+		for i, n := range c.NSs {
+			if n.Name == name {
+				return i
+			}
+		}
+		return 0
+	}
+	ipOf := func(ns string, host int) uint32 { return mustIP(fmt.Sprintf("10.0.%d.%d", nsIdx(ns)+1, host)) }
+	// the crowd: sizes with spare capacity in an append-grown slice (3, 5-7, 9-15) and without (4, 8)
+	k := pick(r, []int{3, 3, 5, 6, 7, 9, 10, 12, 15, 4, 8})
+	for j := 0; j < k; j++ {
+		ns := polNS
+		if !tame && r.Intn(4) == 0 {
+			ns = pick(r, c.NSs).Name
+		}
+		c.Pods = append(c.Pods, Pod{NS: ns, Name: fmt.Sprintf("g%d", j), Node: RemoteNode, HasIP: true, IP: ipOf(ns, 100+j),
+			Labels: Labels{CrowdLabel: "g1"}})
+	}
+	// a selected pod on this node and one pod per further pod-selector peer
+	c.Pods = append(c.Pods, Pod{NS: polNS, Name: "t0", Node: LocalNode, HasIP: true, IP: ipOf(polNS, 90), Labels: Labels{"role": "target"}})
+	for j, app := range appVals {
+		c.Pods = append(c.Pods, Pod{NS: polNS, Name: "q" + app, Node: RemoteNode, HasIP: true, IP: ipOf(polNS, 80+j), Labels: Labels{"app": app}})
+	}
+	first := Peer{Kind: "pod", PodSel: Selector{Match: [][2]string{{CrowdLabel, "g1"}}}}
+	var extras []Peer
+	for _, app := range appVals {
+		extras = append(extras, Peer{Kind: "pod", PodSel: Selector{Match: [][2]string{{"app", app}}}})
+	}
+	for _, n := range c.NSs {
+		extras = append(extras, Peer{Kind: "ns", NSSel: Selector{Match: [][2]string{{"name", n.Name}}}})
+	}
+	if !tame {
+		extras = append(extras, Peer{Kind: "ns", NSSel: Selector{Match: [][2]string{{"team", "x"}}}})
+	}
+	r.Shuffle(len(extras), func(i, j int) { extras[i], extras[j] = extras[j], extras[i] })
+	nrules := 2 + r.Intn(2)
+	var rules []Rule
+	for i := 0; i < nrules && i < len(extras); i++ {
+		ru := Rule{Peers: []Peer{first, extras[i]}, Ports: []Port{{"tcp", 9000 + i, true}}}
+		if r.Intn(3) == 0 && nrules+i < len(extras) {
+			ru.Peers = append(ru.Peers, extras[nrules+i])
+		}
+		rules = append(rules, ru)
+	}
+	sel := Selector{Match: [][2]string{{"role", "target"}}}
+	egress := !tame && r.Intn(3) == 0
+	mk := func(name string, rs []Rule) NetPol {
+		p := NetPol{NS: polNS, Name: name, PodSel: sel, Types: "I", Ingress: rs}
+		if egress {
+			p.Types, p.Ingress, p.Egress = "E", nil, rs
+		}
+		return p
+	}
+	// crowd policies come first / last / in the middle of the list: the shared selector is resolved by whoever is first
+	var crowd []NetPol
+	if r.Intn(2) == 0 {
+		crowd = []NetPol{mk("crowd", rules)}
+	} else {
+		crowd = []NetPol{mk("crowd0", rules[:1]), mk("crowd1", rules[1:])}
+	}
+	if tame {
+		// keep the case inside the proved fragment: the other policies must not isolate t0 in the other direction
+		ps = nil
+	}
+	at := 0
+	if len(ps) > 0 {
+		at = r.Intn(len(ps) + 1)
+	}
+	out := append([]NetPol{}, ps[:at]...)
+	out = append(out, crowd...)
+	out = append(out, ps[at:]...)
+	return c, out
 }
